@@ -25,6 +25,7 @@ import (
 type mEntry struct {
 	Name, File, Task, IV string
 	Aliases              []string
+	Ambiguous            []string
 	Internal             bool
 	Dir                  []string
 	Deps, Calls          []string
@@ -81,7 +82,7 @@ func parseMerge(out string) ([]mCase, error) {
 		for _, x := range tlaval.Seq(e["table"]) {
 			m := tlaval.Rec(x)
 			c.Table = append(c.Table, mEntry{Name: tlaval.Str(m["name"]), File: tlaval.Str(m["file"]), Task: tlaval.Str(m["task"]), IV: tlaval.Str(m["iv"]),
-				Aliases: strs(m["aliases"]), Internal: tlaval.Bool(m["internal"]), Dir: strs(m["dir"]), Deps: strs(m["deps"]), Calls: strs(m["calls"])})
+				Aliases: strs(m["aliases"]), Ambiguous: strs(m["ambiguous"]), Internal: tlaval.Bool(m["internal"]), Dir: strs(m["dir"]), Deps: strs(m["deps"]), Calls: strs(m["calls"])})
 		}
 		cs = append(cs, c)
 	}
@@ -492,6 +493,12 @@ func evalMerge(c mCase, loads int) (ms []mMismatch, unstable *mMismatch) {
 				}()
 				return e3.Run(context.Background(), &task.Call{Task: call})
 			}()
+			if contains(w.Ambiguous, call) {
+				if err == nil {
+					mm("ambiguous-alias-ran", call+" names several tasks and one of them ran")
+				}
+				continue
+			}
 			if w.Internal {
 				if err == nil {
 					mm("internal-callable", call+" ran although internal")
@@ -672,4 +679,13 @@ func CheckMerge(prop, tier string) int {
 		return 1
 	}
 	return 0
+}
+
+func contains(xs []string, x string) bool {
+	for _, y := range xs {
+		if y == x {
+			return true
+		}
+	}
+	return false
 }
